@@ -116,9 +116,14 @@ def gen_design(r, features=()):
                 a, b = r.choice(cands), r.choice(cands)
                 wa = m.nets[a][0] - m.nets[a][1] + 1
                 wb = m.nets[b][0] - m.nets[b][1] + 1
-                w = min(wa, wb)
-                la = (a, m.nets[a][1] + w - 1, m.nets[a][1])
-                lb = (b, m.nets[b][1] + w - 1, m.nets[b][1])
+                if r.random() < 0.6:
+                    w = min(wa, wb)
+                    la = (a, m.nets[a][1] + w - 1, m.nets[a][1])
+                    lb = (b, m.nets[b][1] + w - 1, m.nets[b][1])
+                else:
+                    # sides of different width: Verilog aligns them at the least significant end
+                    la = (a, m.nets[a][0], m.nets[a][1])
+                    lb = (b, m.nets[b][0], m.nets[b][1])
                 m.assigns.append(([la], [lb]))
         mods.append(m)
     # one root: the last module instantiates every otherwise unreferenced non-primitive module
@@ -183,8 +188,16 @@ def write(mods, r, features=()):
             out.append(head + "(%s);" % ", ".join("%s %s%s" % (d, rng(w), n) for n, d, w in m.ports))
         else:
             out.append(head + "(%s);" % ", ".join(n for n, d, w in m.ports))
-            for n, d, w in m.ports:
-                out.append("  %s %s%s;" % (d, rng(w), n))
+            k = 0
+            while k < len(m.ports):
+                n, d, w = m.ports[k]
+                group = [n]
+                # several names in one declaration statement: input [3:0] a, b;
+                while "grouped" in features and k + 1 < len(m.ports) and m.ports[k + 1][1:] == (d, w) and r.random() < 0.7:
+                    k += 1
+                    group.append(m.ports[k][0])
+                out.append("  %s %s%s;" % (d, rng(w), ", ".join(group)))
+                k += 1
         if not m.prim:
             for nn, (hi, lo) in m.nets.items():
                 if any(nn == p[0] for p in m.ports) and r.random() < 0.5:
@@ -241,9 +254,11 @@ def expected(mods):
         assigns = []
         for lhs, rhs in m.assigns:
             lb, rb = bits_of(lhs), bits_of(rhs)
-            assigns.append((len(lb), tuple(zip(lb, rb))))
+            w = min(len(lb), len(rb))
+            assigns.append((w, tuple(zip(lb[:w], rb[:w]))))
         exp[m.name] = {
             "ports": [(n, d, w, 0) for n, d, w in m.ports],
+            "portconn": {(n, k): (n, k) for n, d, w in m.ports for k in range(w)},
             "nets": dict({nn: (hi - lo + 1, lo) for nn, (hi, lo) in m.nets.items()}, **{c: (1, 0) for c in consts}),
             "conn": conn,
             "assigns": sorted(assigns),
